@@ -253,6 +253,29 @@ impl Task {
         self.proc.children(&self.id)
     }
 
+    /// a child (an act of a step or of a group, a step of a catch or of a timeout rule) is
+    /// followed by the next one of its list, which runs beneath the same parent: the child is
+    /// done when its whole chain is done
+    pub fn is_chain_completed(self: &Arc<Self>) -> bool {
+        let mut cur = self.clone();
+        loop {
+            if !cur.state().is_completed() {
+                return false;
+            }
+            let Some(next) = cur.node.next().upgrade() else {
+                return true;
+            };
+            match cur
+                .children()
+                .into_iter()
+                .find(|t| t.node.id() == next.id())
+            {
+                Some(t) => cur = t,
+                None => return true,
+            }
+        }
+    }
+
     pub fn siblings(&self) -> Vec<Arc<Self>> {
         let mut ret = Vec::new();
         if let Some(parent) = self.parent() {
@@ -972,10 +995,18 @@ impl ActTask for Arc<Task> {
             self.update_data(&ctx.vars());
             ctx.emit_task(self)?;
 
-            if !is_next && !ctx.task().is_event_processed() {
+            if !is_next {
                 let parent = ctx.task().parent();
                 if let Some(task) = &parent.clone() {
-                    task.review(ctx)?;
+                    // an act started by a lifecycle hook runs beside the flow; only a step or an
+                    // act waits for it (they count their children before they complete), so only
+                    // they are looked at again when it is done
+                    if !ctx.task().is_event_processed()
+                        || task.is_kind(NodeKind::Step)
+                        || task.is_kind(NodeKind::Act)
+                    {
+                        task.review(ctx)?;
+                    }
                 }
             }
         }
@@ -984,15 +1015,16 @@ impl ActTask for Arc<Task> {
     }
 
     fn review(&self, ctx: &Context) -> Result<bool> {
-        if ctx.task().is_event_processed() {
-            return Ok(false);
+        // an act started by a lifecycle hook runs beside the flow: it hands nothing over, but
+        // the task that waits for it is reviewed when it is done like for any other child
+        if !ctx.task().is_event_processed() {
+            // last task's outputs
+            // update prev outputs to current task
+            let outputs = ctx.task().outputs();
+            self.update_data(&outputs);
+            // the outputs of the child are now part of this task's data, save them
+            ctx.runtime.cache().upsert(self)?;
         }
-        // last task's outputs
-        // update prev outputs to current task
-        let outputs = ctx.task().outputs();
-        self.update_data(&outputs);
-        // the outputs of the child are now part of this task's data, save them
-        ctx.runtime.cache().upsert(self)?;
 
         ctx.set_task(self);
 
